@@ -16,6 +16,8 @@ pub static WATCHDOG: AtomicU64 = AtomicU64::new(5_000_000);
 pub static HANGS: AtomicU64 = AtomicU64::new(0);
 /// runs C04 judged stuck (no return even at 8x the watchdog): each is already a violation
 pub static STUCK: AtomicU64 = AtomicU64::new(0);
+/// runs C04 had to repeat with the 8x budget (0 or 1 per campaign on a healthy tree)
+pub static RETRIED: AtomicU64 = AtomicU64::new(0);
 
 thread_local! {
     static LAST_PANIC: RefCell<Option<String>> = const { RefCell::new(None) };
